@@ -639,8 +639,12 @@ def decide_one(p, a, seed, t0, vr, cr, seeds, kr, fails, maps, image, lookup, co
     # thorough tier: the bounded witness search runs even when every obligation is discharged; a concrete failing
     # input on the real crate while the proofs pass would mean an assumed contract or the specification is wrong
     search_info = None
-    if a.tier == 'thorough' and not violations and not kani_viol:
-        w = witness.search(p, ['thorough-tier cross-check'], {'message': 'thorough-tier witness search', 'fn': None}, REPO)
+    if not violations and not kani_viol and not os.environ.get('VF_NO_SEARCH'):
+        # bounded cross-check on every run: parts of some properties lie outside both provers (C20: the thiserror
+        # `Display` text; C19: call histories and threads; every property: the contracts ASSUMED for external_body
+        # functions, std wrappers and third-party macros).  A concrete failing input on the real crate is reported even
+        # though every obligation is discharged.  It is never counted as an obligation.
+        w = witness.search(p, ['bounded cross-check'], {'message': 'bounded witness search', 'fn': None}, REPO)
         search_info = {'ran': True, 'output_tail': (w or {}).get('output', '')[-300:], 'witness': (w or {}).get('failing_input')}
         if w and w.get('failing_input'):
             violations.append({'kind': 'verification', 'message': 'witness search found a failing input although every obligation is discharged',
@@ -736,7 +740,10 @@ def decide_one(p, a, seed, t0, vr, cr, seeds, kr, fails, maps, image, lookup, co
         'functions_external_body_with_assumed_contract': my_ext,
         'assumed_contracts': assumptions,
         'kani_harnesses': [{k: h.get(k) for k in ('name', 'status', 'complete', 'bound', 'what', 'time_s', 'fn')} for h in kani_mine],
-        'bounded': [{'harness': h['name'], 'bound': h.get('bound'), 'status': h['status']} for h in kani_bounded],
+        'bounded': [{'harness': h['name'], 'bound': h.get('bound'), 'status': h['status']} for h in kani_bounded]
+                   + ([{'harness': 'vf_replay search %s (bounded witness search on the real crate, reference codec as oracle)' % p,
+                        'bound': (re.search(r'cases=(\d+)', search_info.get('output_tail', '')) or [None, '?'])[1] + ' enumerated cases',
+                        'status': 'WITNESS' if search_info.get('witness') else 'NO-WITNESS'}] if search_info else []),
         'samples': samples,
         'image_audit': maps['audit'],
         'rules_applied': maps['rules_applied'],
